@@ -95,7 +95,9 @@ class ApplicationFileScanner:
                 did_error_scanning_files = True
                 break
 
-        sorted_files_to_parse = sorted(files_to_parse)
+        sorted_files_to_parse = (
+            [] if did_error_scanning_files else sorted(files_to_parse)
+        )
         LOGGER.info("Number of files found: %d", len(sorted_files_to_parse))
         did_only_list_files = ApplicationFileScanner.__handle_main_list_files(
             only_list_files, sorted_files_to_parse, handle_output, handle_error
